@@ -776,6 +776,13 @@ var vmOps = map[string]int{
 	"F64toint64": 64, "F64toint32": 32, "F64touint64": 64, "F32toint64": 64, "F32toint32": 32, "F32touint64": 64,
 }
 
+// floatResult: vm operations whose result is a float bit pattern (NaN payload may differ)
+var floatResult = map[string]bool{
+	"Fadd64": true, "Fsub64": true, "Fmul64": true, "Fdiv64": true, "Fneg64": true,
+	"Fadd32": true, "Fsub32": true, "Fmul32": true, "Fdiv32": true, "Fneg32": true,
+	"F64to32": true, "F32to64": true,
+}
+
 func execVM(name string, o op, a []uint64) (string, string) {
 	rw, ok := vmOps[name]
 	if !ok {
@@ -812,6 +819,22 @@ func execVM(name string, o op, a []uint64) (string, string) {
 		out = bs(v != 0)
 	}
 	if out != direct {
+		// NaN payloads are not preserved across the Go<->Gno boundary for float32 (gonative.go marshals
+		// float32 through F64to32/F32to64, which canonicalise NaNs: math.Float32frombits(0x7f800001) is
+		// 0x7fc00000 in Gno).  The statement asks for NaN CLASSIFICATION, so two NaNs agree.
+		if floatResult[name] {
+			var dn, vn bool
+			if rw == 64 {
+				d, _ := parseHexW(direct, 64)
+				dn, vn = isNaN64(d), isNaN64(v)
+			} else {
+				d, _ := parseHexW(direct, 32)
+				dn, vn = isNaN32(uint32(d)), isNaN32(uint32(v))
+			}
+			if dn && vn {
+				return direct, verdict
+			}
+		}
 		return out, fmt.Sprintf("VIOL:vm-differs %s: the GnoVM gives %s, the softfloat function %s", name, out, direct)
 	}
 	return out, verdict
